@@ -27,6 +27,11 @@ type c19Cfg struct {
 	Bound   int
 	Partial bool // readers only: the shared buffer's last frame is partly filled (C-1 samples appended after 5 frames)
 	Frames  int  // frames of the shared buffer (0: 6)
+	// Mode != "": the all-instantiations harness: two threads convert with instantiation (Src, Dst);
+	// "readers": one shared source, private destinations; "writers": private sources into two
+	// disjoint windows of one shared destination
+	Mode     string `json:"mode,omitempty"`
+	Src, Dst string `json:",omitempty"`
 }
 
 type c19Case struct {
@@ -385,11 +390,97 @@ func c19Configs(tier string, race bool) []c19Cfg {
 	return r
 }
 
+// c19InstH: two threads, one conversion each, for one instantiation.
+type c19InstH struct {
+	cfg      c19Cfg
+	s, d     int
+	shared   dyn.Buf
+	obs      [2]uint64
+	haveRef  bool
+	refObs   [2]uint64
+	refFinal []dyn.Val
+}
+
+func (h *c19InstH) Threads() int { return 2 }
+func (h *c19InstH) frames() int {
+	if h.cfg.Frames > 0 {
+		return h.cfg.Frames
+	}
+	return 6
+}
+func (h *c19InstH) Init() {
+	fr := h.frames()
+	t := h.s
+	if h.cfg.Mode == "writers" {
+		t = h.d
+	}
+	h.shared = dyn.Alloc(t, al(h.cfg.C, fr, fr))
+	for i := 0; i < h.shared.Len(); i++ {
+		h.shared.SetSample(i, dyn.Tok(t, tk(int64(1+i))))
+	}
+	h.obs = [2]uint64{14695981039346656037, 14695981039346656037}
+}
+func (h *c19InstH) Run(id int) {
+	fr := h.frames()
+	C := h.cfg.C
+	schedx.Point("convert")
+	var ret int
+	var look dyn.Buf
+	if h.cfg.Mode == "readers" {
+		dst := dyn.Alloc(h.d, al(C, fr, fr))
+		ret = dyn.Conv(h.shared, dst)
+		look = dst
+	} else {
+		half := fr / 2
+		w := h.shared.Slice(id*half, id*half+half)
+		src := dyn.Alloc(h.s, al(C, half, half))
+		for i := 0; i < src.Len(); i++ {
+			src.SetSample(i, dyn.Tok(h.s, tk(int64(3+i+7*id))))
+		}
+		ret = dyn.Conv(src, w)
+		look = w
+	}
+	o := h.obs[id]
+	o = (o ^ uint64(ret)) * 1099511628211
+	for i := 0; i < look.Len(); i++ {
+		o = (o ^ look.Sample(i).B) * 1099511628211
+	}
+	h.obs[id] = o
+	schedx.Point("done")
+}
+func (h *c19InstH) Finish() []string {
+	var final []dyn.Val
+	for i := 0; i < h.shared.Len(); i++ {
+		final = append(final, h.shared.Sample(i))
+	}
+	if !h.haveRef {
+		h.haveRef, h.refObs, h.refFinal = true, h.obs, final
+		return nil
+	}
+	var r []string
+	for i := 0; i < 2; i++ {
+		if h.obs[i] != h.refObs[i] {
+			r = append(r, fmt.Sprintf("%s thread %d observed something different from the sequential run", map[string]string{"readers": "reader", "writers": "writer"}[h.cfg.Mode], i))
+		}
+	}
+	for i := range final {
+		if final[i] != h.refFinal[i] {
+			r = append(r, fmt.Sprintf("final sample %d of the shared buffer is %v, sequential run gives %v", i, final[i], h.refFinal[i]))
+			break
+		}
+	}
+	return r
+}
+func (h *c19InstH) Key() (uint64, bool) { return 0, false }
+
 func c19Explore(c *core.Ctx, cfg c19Cfg, race bool, only []int, onFail func(cs c19Case, fs []F)) (e *schedx.Explorer, rep map[string]any) {
 	old := runtime.GOMAXPROCS(1)
 	defer runtime.GOMAXPROCS(old)
 	start := time.Now()
-	h := &c19H{cfg: cfg, t: typeByName(cfg.T)}
+	var h schedx.Harness = &c19H{cfg: cfg, t: typeByName(cfg.T)}
+	if cfg.Mode != "" {
+		h = &c19InstH{cfg: cfg, s: typeByName(cfg.Src), d: typeByName(cfg.Dst)}
+	}
 	e = &schedx.Explorer{H: h, Bound: cfg.Bound, Prune: cfg.Bound < 0 && !core.RaceEnabled, Horizon: 2000, Stop: c.Expired}
 	judge := func(x *schedx.Execution, raceBefore *int) []F {
 		var fs []F
@@ -466,6 +557,9 @@ func init() {
 					jobs = append(jobs, core.WorkerJob{Binary: bin, ID: "C19", Arg: "cfg:" + string(arg), Env: []string{"VERIF_TIER=" + c.Tier, "GORACE=halt_on_error=0", fmt.Sprintf("VERIF_BUDGET_S=%d", int(time.Until(c.Deadline).Seconds()))}})
 				}
 			}
+			for _, sh := range []string{`{"C":2,"Frames":6}`, `{"C":2,"Frames":600}`, `{"C":9,"Frames":4}`} {
+				jobs = append(jobs, core.WorkerJob{Binary: "mc-race", ID: "C19", Arg: "allinst:" + sh, Env: []string{"VERIF_TIER=" + c.Tier, "GORACE=halt_on_error=0 exitcode=0"}})
+			}
 			var execs, trans, states, raceExecs int64
 			var report []map[string]any
 			var stderrAll string
@@ -506,7 +600,7 @@ func init() {
 			c.Set("distinct_nontrivial", states)
 			c.Set("configs", report)
 			c.Sample(map[string]any{"cfg": c19Cfg{T: "int8", C: 2, R: 2, W: 2, Menu: 0, Bound: -1}, "threads": "readers: samples, Read, Slice+reads, conversion source; writers: Slice(lo,hi) then SetSample, Write, conversion destination, Channel.SetSample"})
-			c.Set("rule", "one shared buffer (6 frames, 1-2 channels, int8/uint16/float32; readers-only variants with 2-3 channels whose last frame is partly filled and whose header nobody touched before the threads start) split into a read-only region and one 2-frame range per writer; R readers run every read-only entry point (Sample, shape methods, BufferIndex, Read, ReadStriped, Slice + reads, Channel views, the three conversion families with the shared buffer as source), W writers each take their own Slice and use SetSample, Write, WriteStriped, Channel.SetSample and a conversion with the window as destination; every interleaving at operation granularity (state-key pruning) for (R,W) in {(2,0),(3,0),(1,1),(2,2),(1,2)} [+ (4,0),(3,2),(0,3),(2,3) thorough]; oracle: every thread's observations, the final contents and the shape equal those of the sequential schedule; the bounded pass in the -race build reports conflicting accesses")
+			c.Set("rule", "one shared buffer (6 frames, 1-2 channels, int8/uint16/float32; readers-only variants with 2-3 channels whose last frame is partly filled and whose header nobody touched before the threads start) split into a read-only region and one 2-frame range per writer; R readers run every read-only entry point (Sample, shape methods, BufferIndex, Read, ReadStriped, Slice + reads, Channel views, the three conversion families with the shared buffer as source), W writers each take their own Slice and use SetSample, Write, WriteStriped, Channel.SetSample and a conversion with the window as destination; every interleaving at operation granularity (state-key pruning) for (R,W) in {(2,0),(3,0),(1,1),(2,2),(1,2)} [+ (4,0),(3,2),(0,3),(2,3) thorough]; oracle: every thread's observations, the final contents and the shape equal those of the sequential schedule; the bounded pass in the -race build reports conflicting accesses; and for every one of the 169 instantiations two readers of one source / two writers into disjoint windows of one destination (6 and 600 frames, 2 and 9 channels) under the race monitor")
 			c.Assume("operation granularity suffices because the race monitor shows the operations conflict-free on every explored schedule (conflict-free operations are both-movers)", "the Go race detector is trusted as happens-before monitor; GOMAXPROCS 1 by construction")
 		},
 		RunCase: func(c *core.Ctx, raw json.RawMessage) []F {
@@ -535,6 +629,37 @@ func init() {
 						res.Violations = append(res.Violations, core.WorkerViolation{Case: json.RawMessage(arg[7:]), Failure: f})
 					}
 				})
+				core.EmitWorkerResult(res)
+				return 0
+			}
+			if len(arg) > 8 && arg[:8] == "allinst:" {
+				// every one of the 169 instantiations, readers and writers, in this one (race) process
+				var shape struct{ C, Frames int }
+				json.Unmarshal([]byte(arg[8:]), &shape)
+				if core.RaceEnabled {
+					if err := raceCanary(); err != nil {
+						res.CanaryOK = false
+						res.Error = err.Error()
+						core.EmitWorkerResult(res)
+						return 0
+					}
+				}
+				for _, sd := range instOrder() {
+					for _, mode := range []string{"readers", "writers"} {
+						cfg := c19Cfg{T: tn(sd[0]), C: shape.C, R: 2, Menu: 0, Bound: 1, Frames: shape.Frames, Mode: mode, Src: tn(sd[0]), Dst: tn(sd[1])}
+						e, _ := c19Explore(c, cfg, core.RaceEnabled, nil, func(cs c19Case, fs []F) {
+							if len(res.Violations) < 6 {
+								raw, _ := json.Marshal(cs)
+								for _, f := range fs {
+									res.Violations = append(res.Violations, core.WorkerViolation{Case: raw, Failure: f})
+								}
+							}
+						})
+						res.Executions += e.Executions
+						res.Transitions += e.Transitions
+					}
+				}
+				res.Configs = []map[string]any{{"config": fmt.Sprintf("all 169 instantiations x {two readers of one source, two writers into disjoint windows}, %d channels, %d frames", shape.C, shape.Frames), "race_monitor": core.RaceEnabled, "executions": res.Executions, "completed": true}}
 				core.EmitWorkerResult(res)
 				return 0
 			}
